@@ -531,6 +531,39 @@ Section Machine.
       + cbn [fst]. destruct Hinv as [Hn|Hd]; [left | right]; assumption.
   Qed.
 
+  Lemma run_state_inv st os : inv st -> inv (run_state ops auto_solver st os).
+  Proof.
+    revert st. induction os as [|o t IH]; intros st Hinv; cbn [run_state]; auto.
+    apply IH. destruct o as [p|s]; cbn [step].
+    - pose proof (response_inv st p Hinv) as Hi. destruct (response ops auto_solver st p); exact Hi.
+    - cbn [fst]. destruct Hinv as [Hn|Hd]; [left | right]; assumption.
+  Qed.
+
+  (* what is proved of "the sparse path returns the requested number of eigenvalues closest to the shift":
+     in any reachable state the module REQUESTS k = nmodes (default 6) eigenvalues around sigma (default 0) from
+     ARPACK in shift-invert mode with the current operator, and returns exactly what ARPACK returned (reordered) *)
+  Theorem sparse_selection_partial
+    (leb_total : forall a b, kleb ops a b = true \/ kleb ops b a = true)
+    h nm sg md os p st' c :
+    let st := run_state ops auto_solver (prepare h nm sg md) os in
+    response ops auto_solver st p = (st', Ok c) -> pencil_sparse p = true ->
+    cK c = Some (match sNmodes st with None => 6%Z | Some k => k end) /\
+    cSigma c = Some (match sSigma st with None => nzero | Some s => s end) /\
+    (exists kind, cOPinv c = Some (kind, Some (shifted_of ops (sSigma st) p))) /\
+    forall W (Qm : mat) W' Q',
+      postprocess ops (sort_default ops) (pB p) W Qm = Ok (W', Q') ->
+      length W' = length W /\ Permutation W' W.
+  Proof.
+    intros st E Hs.
+    destruct (response_current st p st' c (run_state_inv _ os (prepare_inv h nm sg md)) E) as [Hc _].
+    unfold call_current in Hc. rewrite Hs in Hc. destruct Hc as (kind & H1 & H2 & H3 & _).
+    split; [exact H2|]. split; [exact H3|]. split; [exists kind; exact H1|].
+    intros W Qm W' Q' HP.
+    destruct (postprocess_complete ops (sort_default ops) (pB p) W Qm W' Q'
+                (default_sort_is_permutation ops leb_total W Qm) HP) as (Ha & Hb & _).
+    split; assumption.
+  Qed.
+
   (* by induction over ANY sequence of calls with changing A, B and sigma: the shift-invert operator handed
      to ARPACK at call k is the factorisation of the k-th A - sigma B; k, sigma, M are the current ones *)
   Theorem factorisation_current h nm sg md os : history_current ops auto_solver (prepare h nm sg md) os.
